@@ -39,3 +39,12 @@ func VerifC18_RefreshOrderIndependent() {
 	}
 	verifAssert(a.lowest1 == lo1 && a.lowest2 == lo2, "C18/refresh/two-lowest-costs")
 }
+
+// VerifXC18Entry exposes the stored best / second-best state of a destination to the harness in package dv.
+func VerifXC18Entry(r *Rib, dest enc.Name) (has bool, l1, l2, nh1, nh2 uint64) {
+	e := r.entries[dest.Hash()]
+	if e == nil {
+		return false, 0, 0, 0, 0
+	}
+	return true, e.lowest1, e.lowest2, e.nextHop1, e.nextHop2
+}
